@@ -490,6 +490,11 @@ func (p *Program) keyDepth(v ssa.Value, d int) string {
 		}
 		return "const(" + x.Value.ExactString() + ")"
 	case *ssa.Parameter:
+		// a parameter of an extracted helper (unexported, called statically from exactly one place)
+		// denotes the argument of that call: helper extraction must not change value identity
+		if arg := p.soleArgument(x); arg != nil && d < 10 {
+			return p.keyDepth(arg, d+2)
+		}
 		return "param:" + x.Name()
 	case *ssa.FreeVar:
 		return "freevar:" + x.Name()
@@ -677,4 +682,59 @@ func referrersOf(v ssa.Value) []ssa.Instruction {
 		return nil
 	}
 	return *r
+}
+
+// inlinable: an unexported workspace function or method without dynamic uses, i.e. the shape a
+// block takes when it is extracted into a helper. Rules treat such helpers as part of their callers.
+func (p *Program) inlinable(fn *ssa.Function) bool {
+	if fn == nil || fn.Parent() != nil || len(fn.Blocks) == 0 || fn.Synthetic != "" {
+		return false
+	}
+	obj := fn.Object()
+	if obj == nil || obj.Exported() {
+		return false
+	}
+	if p.addressTaken(fn) {
+		return false
+	}
+	// methods that implement an interface used for dispatch are reached dynamically too
+	if fn.Signature.Recv() != nil && p.implementsSomeInvokedMethod(fn) {
+		return false
+	}
+	return len(p.callersOf(fn)) > 0
+}
+
+// implementsSomeInvokedMethod: some invoke in the workspace uses a method of this name with an
+// identical signature (conservative stand-in for "may be called through an interface").
+func (p *Program) implementsSomeInvokedMethod(fn *ssa.Function) bool {
+	if p.invokedMethods == nil {
+		p.invokedMethods = map[string]bool{}
+		for _, f := range p.Funcs {
+			for _, c := range callsIn(f) {
+				if c.Common.IsInvoke() {
+					p.invokedMethods[c.Common.Method.Name()] = true
+				}
+			}
+		}
+	}
+	return p.invokedMethods[fn.Name()]
+}
+
+// soleArgument: for a parameter of an inlinable helper with exactly one static call site, the
+// argument passed there.
+func (p *Program) soleArgument(prm *ssa.Parameter) ssa.Value {
+	fn := prm.Parent()
+	if fn == nil || !p.inlinable(fn) {
+		return nil
+	}
+	callers := p.callersOf(fn)
+	if len(callers) != 1 {
+		return nil
+	}
+	for i, pp := range fn.Params {
+		if pp == prm && i < len(callers[0].Common.Args) {
+			return callers[0].Common.Args[i]
+		}
+	}
+	return nil
 }
